@@ -77,6 +77,16 @@ def fam_task(task):
                 digests.add(label)
                 continue
             if label.startswith('run_script:'):
+                # in front of witness + lock a stack-neutral prelude: nothing, a TRY whose body raised (caught), a LOOP that ran once, a
+                # definition called once, an IF body — the per-call flags must still govern what follows
+                o_ = lambda nm_: bytes([F.opcodes_inverse['OP_' + nm_][0]])
+                prelude = rng.choice([b'', b'',
+                                      o_('TRY_EXCEPT') + b'\x00\x02\x00' + o_('VERIFY') + b'\x00\x02\x01' + o_('POP0'),
+                                      b'\x01' + o_('LOOP') + b'\x00\x02' + o_('POP0') + b'\x00' + o_('POP0'),
+                                      o_('DEF') + b'\x09\x00\x02\x01' + o_('POP0') + o_('CALL') + b'\x09',
+                                      b'\x01' + o_('IF') + b'\x00\x02\x01' + o_('POP0')])
+                scripts = [prelude] + list(scripts)
+                stats['run_script-prelude-%d' % len(prelude)] += 1
                 st, iline, mline = tsh.compare_script(model, b''.join(scripts), cache, cfg)
                 stats[st] += 1
                 f__ = iline.split(' | ')
@@ -416,6 +426,12 @@ def c01_task(task):
         case = _case(scripts, cv, cfg)
         if st == 'differ' and len(dis) < 5:
             dis.append(dict(case=case, impl=iline[:500], model=mline[:500]))
+        if st == 'differ' and iline.startswith('verdict:') and mline.startswith('verdict:') and iline[:9] != mline[:9]:
+            # the Coq model is the formal reading of the documented instruction semantics: when the two VERDICTS differ on a concrete
+            # list of scripts, that list is a failing input of "the verdict is True exactly when every script ran to its end ..."
+            stats['verdict-differs-from-formal-semantics'] += 1
+            if len(viol) < 8:
+                viol.append(dict(what='run_auth_scripts gives %s, the documented semantics (formal model) gives %s on these scripts' % (iline[:9], mline[:9]), case=case))
         r = c01_direct(scripts, cv, cfg)
         if isinstance(r, list):
             texts, v = r, None
@@ -874,7 +890,8 @@ def c03_task(task):
             rng.shuffle(sigs)
         keys = [PUBS[k] for k in ks]
         ver = rng.random() < 0.25
-        script = b''.join(push(s) for s in sigs) + b''.join(push(k) for k in keys) + \
+        below = b''.join(push(rng.choice([b'\x01', b'\xff', b'\x00'])) for _ in range(rng.randint(1, max(1, m * nk)))) if rng.random() < 0.3 else b''
+        script = below + b''.join(push(s) for s in sigs) + b''.join(push(k) for k in keys) + \
             op('CHECK_MULTISIG_VERIFY' if ver else 'CHECK_MULTISIG') + bytes([allowed, m, nk])
         # the property: each of the m signatures valid under a different one of the n keys (positions)
         val = [[nacl_valid(keys[j], msg_spec(0 if len(s) == 64 else s[-1], sf), s[:64]) and
@@ -918,7 +935,7 @@ def c03_task(task):
             ok = f_[0].startswith('raised:') or (f_[0] == 'done' and f_[3].split(',')[-1] != 'ff')   # never true
             stats['exp-not-true(flag)'] += 1
         elif ver:
-            ok = (f_[0] == 'done' and f_[3] == '-') if exp else f_[0].startswith('raised:')
+            ok = (f_[0] == 'done' and (f_[3] == '-' or bool(below))) if exp else f_[0].startswith('raised:')
             stats['exp-verify-' + str(exp)] += 1
         else:
             ok = f_[0] == 'done' and f_[3].split(',')[-1] == ('ff' if exp else '00')
